@@ -167,7 +167,7 @@ func init() {
 		for _, b := range bodies {
 			kinds = append(kinds, kind{
 				name:    "cb-" + cl.name + "-" + b.name,
-				body:    "ch := make(chan int)\n" + cl.src(b.src),
+				body:    "ch := make(chan int)\n_ = ch\n" + cl.src(b.src),
 				abs:     cl.abs(b.abs),
 				trace:   "s0,s0,s0,s0,s0,s0,s1,s1,s1,s1,c,w,s0,s1,s0,s1,s0,s1",
 				want:    "ctxErr 0",
@@ -175,9 +175,8 @@ func init() {
 			})
 		}
 	}
-	// a callback run by a goroutine of the native code that is over before the cancellation
-	kinds = append(kinds, kind{name: "cb-gocall-done", body: "ch := make(chan int)\nh.GoCall(func() { ch <- KK })\n<-ch\nfor {\n}",
-		abs: "c,o4,r,j3,s,h", trace: "s0,s0,s1,S0,S1,s1,s0,s0,c,w,s0,s1", want: "ctxErr 0", op: "OpReceive", nonterm: true})
+	// (a function value called from a goroutine of the native code is the known finding below: it
+	// cannot be run in this process)
 }
 
 // knownGoCall: a function value called by a goroutine of the NATIVE code, still running when the
@@ -326,7 +325,7 @@ func execCase(cs c11Case) (observed, error) {
 
 func runC11(c *hx.Ctx) error {
 	res := c.Res
-	res.Rule = "110 kinds of generated code: 31 callback shapes (a Scriggo function value called by a native function once / n times / until true / nested in another callback / inside a goroutine of the program, its body looping, receiving, sending, selecting, ranging or polling; one called from a native goroutine and over before the cancellation), 48 nested shapes (a range / receive loop / select loop over a channel fed with 1-3 values or endlessly, whose body sends, receives, selects with and without default, ranges over another channel or only computes) and 31 flat ones (tight/counting/nested loops, bounded recursion in a loop, blocked receive/send on unbuffered, full and nil channels, select{} and select without default, range over an open channel, goroutines spinning or blocked, select-default spin, short native calls in a loop, loops inside deferred/recovering functions, a loop inside a native callback, endless pipeline, template for loops / macro / receive; 4 terminating kinds) x random constant x context ending (cancel after 0-30 ms, timeout, cancelled before Run; for terminating code: never, late, background, racing cancel). Non-trivial: non-terminating code whose context ends, or terminating code with a context; distinct by kind+constant+context+delay"
+	res.Rule = "109 kinds of generated code: 30 callback shapes (a Scriggo function value called by a native function once / n times / until true / nested in another callback / inside a goroutine of the program, its body looping, receiving, sending, selecting, ranging or polling), 48 nested shapes (a range / receive loop / select loop over a channel fed with 1-3 values or endlessly, whose body sends, receives, selects with and without default, ranges over another channel or only computes) and 31 flat ones (tight/counting/nested loops, bounded recursion in a loop, blocked receive/send on unbuffered, full and nil channels, select{} and select without default, range over an open channel, goroutines spinning or blocked, select-default spin, short native calls in a loop, loops inside deferred/recovering functions, a loop inside a native callback, endless pipeline, template for loops / macro / receive; 4 terminating kinds) x random constant x context ending (cancel after 0-30 ms, timeout, cancelled before Run; for terminating code: never, late, background, racing cancel). Non-trivial: non-terminating code whose context ends, or terminating code with a context; distinct by kind+constant+context+delay"
 	if v := os.Getenv("VERIF_C11_BOUND_MS"); v != "" {
 		if n, err := strconv.Atoi(v); err == nil && n > 0 {
 			boundMs = n
